@@ -68,7 +68,8 @@ class Ctx(object):
         self.obligations = []
         self.watch = {}            # name -> z3 term, reported from models
         self.witness_fn = None     # z3 model -> JSON-able concrete input for the replay harness
-        self.small_hints = []      # extra constraints tried first when extracting a counterexample (small sizes)
+        self.small_hints = []
+        self.notes = []      # extra constraints tried first when extracting a counterexample (small sizes)
         self.facts_used = []
 
     def fresh(self, base, sort):
@@ -259,6 +260,11 @@ class Interp(object):
         from .ops import NativeMethod
         if isinstance(fn, NativeMethod) or (callable(fn) and self.world.native_ok(fn, args, kwargs)):
             return self.world.native_call(self, fn, args, kwargs)
+        h = self.world.hooks.get('native_call_sym')
+        if h is not None and callable(fn):
+            r = h(self, fn, args, kwargs)
+            if r is not NotImplemented:
+                return r
         raise OutOfSubset('call of %r' % (fn,))
 
     def instantiate(self, cls, args, kwargs):
